@@ -171,15 +171,6 @@ theorem SHref.tok_flat (r : SHref) : Flat .default r.tok :=
   safe_flat_noStr .default rfl _ r.tok_val_safe (by rcases r.tok_typ with h | h <;> simp [h])
     (by rcases r.tok_typ with h | h <;> simp [h])
 
-theorem parseLoop_skip_inv {σ : Type} (step : σ → Tok → List Tok → σ × List Tok) (P : σ → Prop)
-    (g x : List Tok) (h : ∀ t ∈ g, ∀ s rest, P s → step s t rest = (s, rest)) (s : σ) (hs : P s) :
-    parseLoop step s (g ++ x) = parseLoop step s x := by
-  induction g with
-  | nil => rfl
-  | cons t ts ih =>
-    rw [List.cons_append, parseLoop_cons _ _ _ _ (by rw [h t (by simp) s _ hs]; simp), h t (by simp) s _ hs]
-    exact ih (fun y hy => h y (by simp [hy]))
-
 /-! ## `@import` -/
 
 theorem impStep_gap (O : Oracle) (t : Tok) (ht : isGapTok t = true) (s : ImpSt) (rest : List Tok)
